@@ -97,6 +97,15 @@ POOLS = {
                        ["c:rel"], ["a/../b"], ["x*"]], []),
     "project_urls": ([{"Home": "https://example.com"}, {}, {"a": "1", "b": "2"}, {"": ""}, {"Docs, more": "u,v"}], [], []),
 }
+# values containing str.format metacharacters: an error message built by formatting a template that already holds the
+# value must not choke on them
+_BRACES = {"metadata_version": ["{x}", "2.{}"], "name": ["{x}", "{0}", "a{", "}"], "version": ["{0}", "1.{x}", "{"],
+           "summary": ["{}\n", "{x}\nb"], "description_content_type": ["text/{x}", "{0}", "text/plain; charset={}"],
+           "dynamic": [["{x}"], ["Name{}"]], "provides_extra": [["{x}"], ["a{0}"]], "requires_python": ["{x}", ">={0}"],
+           "requires_dist": [["{x}"], ["a{}b >= {0}"]], "license_expression": ["{x}", "MIT OR {0}", "{"],
+           "license_files": [["../{x}"], ["/{0}"], ["{}*"]]}
+for _k, _vals in _BRACES.items():
+    POOLS[_k] = (POOLS[_k][0], POOLS[_k][1] + _vals, POOLS[_k][2])
 STR_GENERIC = ["home_page", "download_url", "author", "author_email", "maintainer", "maintainer_email", "license"]
 LIST_GENERIC = ["platforms", "supported_platforms", "classifiers", "requires_external", "provides_dist", "obsoletes_dist",
                 "requires", "provides", "obsoletes"]
